@@ -43,16 +43,7 @@ where
                     SPACE | HORIZONTAL_TAB => &src[..i],
                     LINE_FEED => {
                         is_eol = true;
-
-                        let line = &src[..i];
-
-                        if line.ends_with(&[CARRIAGE_RETURN]) {
-                            // SAFETY: `line.len()` is > 0.
-                            let end = line.len() - 1;
-                            &line[..end]
-                        } else {
-                            line
-                        }
+                        &src[..i]
                     }
                     _ => unreachable!(),
                 };
@@ -75,7 +66,13 @@ where
         }
     }
 
-    if !is_eol {
+    if is_eol {
+        // The carriage return of a CRLF may have been read with an earlier buffer than the line
+        // feed, so it is stripped from the name, not from the last buffer.
+        if definition.name().ends_with(&[CARRIAGE_RETURN]) {
+            definition.name_mut().pop();
+        }
+    } else {
         len += read_line(reader, definition.description_mut())?;
     }
 
